@@ -252,6 +252,12 @@ func (p poolItem) pkg() *extractor.Package {
 		name = ""
 	case "different":
 		name, version = "display name <other>", "9.9-display"
+	case "version-range":
+		version = ">=2.0,<3"
+	case "version-other":
+		version = "9.9"
+	case "version-reserved":
+		version = "1 2+3%4&5=6?7#8@9:é"
 	}
 	switch p.Meta {
 	case "cdx":
@@ -263,7 +269,11 @@ func (p poolItem) pkg() *extractor.Package {
 		return &extractor.Package{Name: "no purl <&>", Version: "0.1", Locations: []string{"dir/nopurl"}, Extractor: poolEx}
 	}
 	u := *p.U
-	return &extractor.Package{Name: u.Name, Version: u.Version, Locations: []string{p.Loc}, Extractor: poolEx, Metadata: &u}
+	loc := p.Loc
+	if loc == "" {
+		loc = "dir/" + p.Shape + ".lock"
+	}
+	return &extractor.Package{Name: name, Version: version, Locations: []string{loc}, Extractor: poolEx, Metadata: &u}
 }
 
 // Canonical forms are computed with the third-party packageurl-go library directly, never with
@@ -1028,6 +1038,40 @@ func main() {
 				typesWithShape[it.Shape]++
 				if t == purl.TypeGeneric {
 					Q = append(Q, *rp)
+				}
+			}
+		}
+	}
+	// the PURL has NO version while the package has one (a range, another version, text with
+	// reserved characters), and the PURL has one while the package has none / another; for plain
+	// packages and for packages of both SBOM extractors. A version-less PURL stays version-less.
+	for _, t := range types {
+		for _, meta := range []string{"", "cdx", "spdx"} {
+			for _, v := range []struct {
+				purlVersion, pf string
+			}{{"", "version-range"}, {"", "version-other"}, {"", "version-reserved"}, {"1.0", "version-other"}, {"1.0", "version-empty"}, {"1.0", "version-range"}} {
+				if t != purl.TypeGeneric && t != purl.TypeDebian && !(meta == "" && v.purlVersion == "" && v.pf == "version-range") {
+					continue
+				}
+				label := "purl-versionless"
+				if v.purlVersion != "" {
+					label = "purl-versioned"
+				}
+				m := meta
+				if m == "" {
+					m = "plain"
+				}
+				it := poolItem{Shape: label + "-pkg-" + v.pf + "-" + m, Type: t, U: &purl.PackageURL{Type: t, Name: "pkg", Version: v.purlVersion}, Meta: meta, PkgFields: v.pf}
+				if valid := func() bool { _, err := packageurl.FromString(it.U.String()); return err == nil }(); !valid {
+					excluded = append(excluded, t+":"+it.Shape)
+					continue
+				}
+				P = append(P, it)
+				typesWithShape[it.Shape]++
+				// Q (pairs, triples, file names, cli, overwrite, history, second generation): a subset
+				inQ := v.purlVersion == "" && (v.pf == "version-range" || (v.pf == "version-reserved" && meta != "spdx")) || (v.purlVersion != "" && v.pf == "version-other" && meta == "")
+				if t == purl.TypeGeneric && inQ {
+					Q = append(Q, it)
 				}
 			}
 		}
